@@ -373,7 +373,7 @@ pub fn gen_c14(em: &mut Emitter, rng: &mut Rng) {
 /// value, coefficients and the batch / multi-batch update of a tracked member against the secret-key recomputation
 fn large_batches(em: &mut Emitter, rng: &mut Rng) {
     let g = G1Projective::GENERATOR;
-    let sizes: Vec<usize> = if em.thorough() { vec![255, 256, 257, 300, 513, 1030] } else { vec![257, 300] };
+    let sizes: Vec<usize> = if em.thorough() { vec![255, 256, 257, 300, 513, 1030, 1290] } else { vec![257, 1030] };
     for n in sizes {
         let alpha = rng.scalar();
         let key = SecretKey(alpha);
@@ -417,6 +417,28 @@ fn large_batches(em: &mut Emitter, rng: &mut Rng) {
         let wm = w00.multi_batch_update(y, &[(adds.clone(), dels.clone(), coefs.clone())]);
         if wm.0 != want.0 {
             em.violation("multi-batch-update-mismatch", format!("multi_batch_update over one batch of {} deletions differs from the recomputed witness", n), replay.clone());
+        }
+        // non-membership of a fresh element over the large sets: from scratch at both epochs, and publicly updated
+        {
+            let z = Element(rng.scalar());
+            let set0: Vec<Element> = members.clone();
+            let mut set1: Vec<Element> = members[n..].to_vec();
+            set1.extend(adds.iter().cloned());
+            match (NonMembershipWitness::new(z, &set0, &key), NonMembershipWitness::new(z, &set1, &key)) {
+                (Some(n0), Some(n1)) => {
+                    if !n0.verify(z, pk, acc0) {
+                        em.violation("fresh-nonmembership-rejected", format!("NonMembershipWitness::new over {} elements does not verify", set0.len()), replay.clone());
+                    }
+                    if !n1.verify(z, pk, acc1) {
+                        em.violation("fresh-nonmembership-rejected", format!("NonMembershipWitness::new over {} elements does not verify", set1.len()), replay.clone());
+                    }
+                    let up = n0.batch_update(z, &adds, &dels, &coefs);
+                    if up.c != n1.c || up.d != n1.d {
+                        em.violation("nonmembership-batch-update-mismatch", format!("non-membership batch_update over a batch of {} deletions differs from the recomputed witness", n), replay.clone());
+                    }
+                }
+                _ => em.count("large-batch:nonmembership-new-failed"),
+            }
         }
         // a deleted member's witness must not verify after the update
         let yd = members[n - 1];
